@@ -68,6 +68,8 @@ enum COp {
     Drain,
     Setcap(u64),
     Stat,
+    /// n inserts of fresh clean frames for two reserved page ids in turn
+    Churn(u64),
 }
 
 fn parse_cop(ws: &[&str]) -> Option<COp> {
@@ -93,6 +95,13 @@ fn parse_cop(ws: &[&str]) -> Option<COp> {
         ["drain"] => COp::Drain,
         ["setcap", n] => COp::Setcap(num(n)?),
         ["stat"] => COp::Stat,
+        ["churn", n] => {
+            let n = num(n)?;
+            if n > 200_000 {
+                return None;
+            }
+            COp::Churn(n)
+        }
         _ => return None,
     })
 }
@@ -191,6 +200,26 @@ fn exec_seq(cap: u64, ops: &[COp]) -> String {
                 "ok".to_string()
             }
             COp::Stat => format!("cap={} n={}", cache.capacity(), cache.num_frames()),
+            COp::Churn(n) => {
+                const CHURN_BASE: u64 = 1 << 40;
+                let mut evictions = 0u64;
+                let mut failed = None;
+                for i in 0..*n {
+                    let f = vc::new_frame(CHURN_BASE + i % 2, SEQ_PAGE_SIZE, &0u64.to_le_bytes(), false);
+                    match cache.insert(f) {
+                        Ok(Some(_)) => evictions += 1,
+                        Ok(None) => {}
+                        Err(e) => {
+                            failed = Some(err_class(&e));
+                            break;
+                        }
+                    }
+                }
+                match failed {
+                    Some(e) => e,
+                    None => format!("churn {}", evictions),
+                }
+            }
         };
         outs.push(o);
     }
@@ -686,6 +715,8 @@ fn run_workload_into(cfg: GridCfg, stmts: Vec<GStmt>, path: std::path::PathBuf, 
             GStmt::Bulk(lo, n, k, len) => {
                 let mut out = (format!("affected {}", n), false);
                 for id in *lo..*lo + *n {
+                    // every single INSERT gets the full time limit
+                    let _ = tx.send("<tick>".into());
                     let (r, dead) = exec(&sql_of(&GStmt::Ins(id, *k, *len)).unwrap());
                     if r != "affected 1" {
                         out = (if dead { r } else { format!("{} at id {}", r, id) }, dead);
@@ -722,11 +753,12 @@ fn run_workload(cfg: &GridCfg, stmts: &[GStmt]) -> Vec<String> {
     let handle = std::thread::spawn(move || run_workload_into(c, st, path, tx));
     let mut res: Vec<String> = Vec::with_capacity(stmts.len() + 4);
     loop {
-        match rx.recv_timeout(std::time::Duration::from_secs(20)) {
+        match rx.recv_timeout(std::time::Duration::from_secs(30)) {
             Ok(r) if r == "<end>" => {
                 let _ = handle.join();
                 break;
             }
+            Ok(r) if r == "<tick>" => {}
             Ok(r) => res.push(r),
             Err(std::sync::mpsc::RecvTimeoutError::Timeout) => {
                 res.push("hang".into());
@@ -887,7 +919,7 @@ fn gen_grid(rng: &mut Rng, n_cfg: u64, big: bool) -> String {
     let n = rng.range(50, 130) as usize;
     let small = rng.chance(1, 2);
     // enough rows that the database outgrows the small caches of the grid under every page size
-    const MAX_INSERTS: u64 = 2500;
+    const MAX_INSERTS: u64 = 1200;
     let mut inserted = 0u64;
     let mut ids: Vec<u64> = Vec::new();
     let mut next_id = 1u64;
@@ -907,7 +939,7 @@ fn gen_grid(rng: &mut Rng, n_cfg: u64, big: bool) -> String {
         }
     };
     // enough rows that the database outgrows a 48-page cache of 4 KiB pages in some workloads
-    let bulk_rows = if big { *rng.pick(&[12u64, 40]) } else { *rng.pick(&[40u64, 120, 300, 600]) };
+    let bulk_rows = if big { *rng.pick(&[12u64, 40]) } else { *rng.pick(&[40u64, 120, 300]) };
     for i in 0..n {
         let any = |rng: &mut Rng, ids: &Vec<u64>| if ids.is_empty() { 1 } else { *rng.pick(ids) };
         let mut r = if i < 6 { 0 } else if i < 9 { 45 } else { rng.below(100) };
@@ -973,8 +1005,9 @@ fn gen_grid(rng: &mut Rng, n_cfg: u64, big: bool) -> String {
 // The *same SQL script*, produced by the generators of the `sql` engine (C05: joins, aggregates, ORDER BY/LIMIT,
 // DML) and of the `hist` engine (C04: interleaved sessions, commits and rollbacks), executed on databases created with
 // different configurations: page 4–64 KiB, cache from the pin bound to 4096 pages, min keys 3–8, siblings 1–4, pool 1/2/8.
-//   sqlgrid <config seed> <n configs> | sql <db> ; <stmt> ; …      answer: the statements' canonical results (the
+//   sqlgrid <config seed> <n configs> m | sql <db> ; <stmt> ; …    answer: the statements' canonical results (the
 //                                                                     Lean side answers with the logical model's)
+//   sqlgrid <config seed> <n configs> x | sql <db> ; <stmt> ; …    (tables blown up) answer: `same`
 //   histgrid <config seed> <n configs> | <hist case>                 answer: `same`
 // Any difference between two configurations is a failure (`PROPFAIL diff …`).
 
@@ -1075,7 +1108,7 @@ fn compare_script_runs(cfgs: &[GridCfg], runs: &[Vec<String>]) -> Option<String>
     None
 }
 
-fn exec_sqlgrid(seed: u64, ncfg: u64, case_line: &str) -> String {
+fn exec_sqlgrid(seed: u64, ncfg: u64, with_model: bool, case_line: &str) -> String {
     if super::sql::parse_case(case_line).is_none() {
         return "bad-op".into();
     }
@@ -1083,9 +1116,11 @@ fn exec_sqlgrid(seed: u64, ncfg: u64, case_line: &str) -> String {
     let runs: Vec<Vec<String>> = cfgs.iter().map(|c| run_sql_script(c, case_line)).collect();
     match compare_script_runs(&cfgs, &runs) {
         Some(f) => f,
-        // all configurations agree: the answer is the script's canonical results, which the Lean side computes with the
-        // logical model (that model takes no configuration argument)
-        None => format!("{} ## configs={}", runs[0].join(" ; "), cfgs.len()),
+        // all configurations agree. Mode `m`: the answer is the script's canonical results, which the Lean side computes
+        // with the logical model (that model takes no configuration argument). Mode `x` (tables blown up beyond what the
+        // list-based model answers in reasonable time): the answer is `same`.
+        None if with_model => format!("{} ## configs={}", runs[0].join(" ; "), cfgs.len()),
+        None => format!("same ## configs={} stmts={}", cfgs.len(), runs[0].len()),
     }
 }
 
@@ -1150,16 +1185,21 @@ fn gen_script_grids(rng: &mut Rng, tier: Tier, lines: &mut Vec<String>) {
         // keep the largest possible join below ~3 000 combinations (the engine joins by nested loops, and the Lean
         // model that answers the same script is a plain list program)
         let budget = match tables.len() {
-            1 => 150,
-            2 => 40,
-            _ => 14,
+            1 => 300,
+            2 => 60,
+            _ => 16,
         };
         let factor = (budget / max_rows).clamp(1, 60);
         let Some(inflated) = inflate_sql_case(&case.line, factor) else { continue };
         if inflated.len() > 60_000 {
             continue;
         }
-        lines.push(format!("sqlgrid {} {} | {}", r.below(1 << 40), 8, inflated));
+        // alternately: the script as generated, checked against the logical model too; the script on blown-up tables
+        if taken % 2 == 0 {
+            lines.push(format!("sqlgrid {} {} m | {}", r.below(1 << 40), 8, case.line));
+        } else {
+            lines.push(format!("sqlgrid {} {} x | {}", r.below(1 << 40), 8, inflated));
+        }
         taken += 1;
     }
     // histories of the `hist` engine's generator
@@ -1226,7 +1266,12 @@ fn gen_seq(rng: &mut Rng) -> String {
         } else if take(clear_w) {
             if rng.chance(1, 4) { "drain".to_string() } else { "clear".to_string() }
         } else if take(setcap_w) {
-            format!("setcap {}", rng.below(cap + 4))
+            if rng.chance(1, 3) {
+                // tens of thousands of evictions in one operation (the eviction counter of the cache is 16 bits wide)
+                format!("churn {}", *rng.pick(&[3u64, 40, 70_000]))
+            } else {
+                format!("setcap {}", rng.below(cap + 4))
+            }
         } else {
             "stat".to_string()
         };
@@ -1452,6 +1497,12 @@ fn tags_of(line: &str, out: &str) -> Vec<String> {
         }
         "sqlgrid" | "histgrid" => {
             tags.push("nt".into());
+            if kind == "sqlgrid" {
+                tags.push(if ws[3] == "m" { "sqlgrid:vs-model".into() } else { "sqlgrid:blown-up".into() });
+                if line.contains(" join ") {
+                    tags.push("sqlgrid:join".into());
+                }
+            }
         }
         "cfg" => {
             tags.push("nt".into());
@@ -1549,13 +1600,21 @@ impl Engine for CacheEngine {
                     None => "bad-op".into(),
                 }
             }
-            ["sqlgrid", seed, ncfg, "|", ..] | ["histgrid", seed, ncfg, "|", ..] => {
+            ["sqlgrid", seed, ncfg, mode, "|", ..] => {
+                let (Some(seed), Some(ncfg)) = (num(seed), num(ncfg)) else { return "bad-op".into() };
+                if !(2..=64).contains(&ncfg) || !(*mode == "m" || *mode == "x") {
+                    return "bad-op".into();
+                }
+                let Some((_, script)) = line.split_once(" | ") else { return "bad-op".into() };
+                exec_sqlgrid(seed, ncfg, *mode == "m", script.trim())
+            }
+            ["histgrid", seed, ncfg, "|", ..] => {
                 let (Some(seed), Some(ncfg)) = (num(seed), num(ncfg)) else { return "bad-op".into() };
                 if !(2..=64).contains(&ncfg) {
                     return "bad-op".into();
                 }
                 let Some((_, script)) = line.split_once(" | ") else { return "bad-op".into() };
-                if ws[0] == "sqlgrid" { exec_sqlgrid(seed, ncfg, script.trim()) } else { exec_histgrid(seed, ncfg, script.trim()) }
+                exec_histgrid(seed, ncfg, script.trim())
             }
             ["gridx", page, cache, pool, mk, sib, ckpt, "|", rest @ ..] => {
                 // the reference configuration against one explicitly given configuration
